@@ -6,6 +6,8 @@
 mod wire;
 #[path = "../wiregen.rs"]
 mod wiregen;
+#[path = "../wireattr.rs"]
+mod wireattr;
 
 use bytes::BytesMut;
 use rustybgp_packet::bgp::validate_message;
